@@ -37,7 +37,8 @@ _CONTRACTS = ["contract:array_2d_util.array_2d_slim_from", "contract:array_2d_ut
 MIN_MONITORS = {"*": dict({c: 1 for c in _CONTRACTS}, **{"array2d.slim": 1, "grid2d.native": 1, "vector.slim": 1,
                                                          "indexes.native_for_slim": 1, "array1d.roundtrip": 1, "shared_input.two_masks": 1,
                                                          "shared_input.remasked_structure": 1, "history.native_after_assignment": 20,
-                                                         "history.indexes_after_mask_edit": 20, "mask_spelling.same_as_boolean": 20, "remask.apply_mask_on_masked_structure": 20})}
+                                                         "history.indexes_after_mask_edit": 20, "mask_spelling.same_as_boolean": 20, "remask.apply_mask_on_masked_structure": 20,
+                                                         "native_only.masked_positions_zero": 100})}
 
 
 def plan(tier, seed):
@@ -56,6 +57,11 @@ def plan(tier, seed):
     nrand = 600 if tier == "quick" else 6000
     for s in range(0, nrand, 100):
         units.append({"kind": "rand2d", "start": s, "stop": s + 100, "w": 100 * 8})
+    # the shipped option general.structures.native_binned_only switched on (everything is kept native, PyAutoCTI's mode): the native
+    # form still holds the values at their pixels with every masked position zero, whichever form was supplied
+    nno = 150 if tier == "quick" else 3000
+    for s in range(0, nno, 50):
+        units.append({"kind": "native_only", "start": s, "stop": s + 50, "w": 50 * 4})
     if tier == "thorough":
         units.append({"kind": "suite", "w": 40000})      # the repository's own tests with the contracts installed
     return units
@@ -415,7 +421,47 @@ def check_1d(ctx, m, rng):
              sample=None)
 
 
+def run_native_only(ctx, u):
+    from autoconf import conf
+    aa = ctx.aa
+    env.push_config("native_only")
+    try:
+        if conf.instance["general"]["structures"]["native_binned_only"] is not True:
+            raise env.Inconclusive("config switch to native_only not effective")
+        for i in range(u["start"], u["stop"]):
+            if not ctx.begin("native_only:%d" % i):
+                continue
+            rng = gen.rng_for(ctx.seed, NO, 77, i)
+            H, W = int(rng.integers(1, 7)), int(rng.integers(1, 7))
+            m, fam = gen.random_mask(rng, H, W)
+            vals = gen.unique_values(rng, H * W, negative=bool(i % 2)).reshape(H, W)
+            exp = np.where(m, 0.0, vals)
+            mask = aa.Mask2D(mask=m.copy(), pixel_scales=1.0)
+            Wt = dict(mask=m, values=vals, option="general.structures.native_binned_only = True")
+            for form, supplied in (("native", vals.copy()), ("slim", vals[~m].copy())):
+                for sn in (False, True):
+                    ok, a = ctx.guarded("native_only.construct", lambda: aa.Array2D(values=supplied.copy(), mask=mask, store_native=sn))
+                    if not ok:
+                        continue
+                    got = {"array": _np(a), "native": _np(a.native), "native.native": _np(a.native.native)}
+                    m2 = m.copy()
+                    if (~m2).sum() > 1:
+                        m2[tuple(np.argwhere(~m2)[0])] = True
+                    ok2, b = ctx.guarded("native_only.construct", lambda: a.apply_mask(mask=aa.Mask2D(mask=m2.copy(), pixel_scales=1.0)))
+                    good = all(v.shape == exp.shape and np.array_equal(v, exp) for v in got.values())
+                    if ok2:
+                        good = good and _np(b.native).shape == exp.shape and np.array_equal(_np(b.native), np.where(m2, 0.0, vals))
+                    ctx.check(good, "native_only.masked_positions_zero", supplied_as=form, store_native_requested=sn,
+                              got={k: v for k, v in got.items()}, expected=exp, **Wt)
+            ctx.case("native_only", m, vals, nontrivial=bool(m.any()), cls=["config:native_binned_only", "mask:" + fam], sample=None)
+    finally:
+        env.push_config("base")
+
+
 def run_unit(ctx, u):
+    if u["kind"] == "native_only":
+        run_native_only(ctx, u)
+        return
     rng = gen.rng_for(ctx.seed, NO, u.get("start", 0), u.get("H", 0), u.get("W", 0), u.get("L", 0))
     if u["kind"] == "enum2d":
         # Array2D and Grid2D in all four (input form x storage form) combinations for every mask, so every
